@@ -103,6 +103,7 @@ class Env:
         self.max_inflight = 0
         self.max_lookahead = 0
         self.max_ahead_finished = 0
+        self.max_ahead_exec = 0    # items taken minus tasks executed (meaningful on the sequential n_jobs=1 path)
         self.b_max = 1
         self.parallel = None
         self.inv_violations = []
@@ -362,6 +363,9 @@ def gen_inputs(env, call_no, n, iter_fail_at=None):
         env.pullers.setdefault(call_no, set()).add(a.name if a is not None else "?")
         env.events.append(("take", call_no, i, a.name if a is not None else "?", env.phase(),
                            env.tasks_finished, env.tasks_submitted))
+        ahead_exec = env.taken[call_no] - sum(1 for (cc, _i) in env.exec_log if cc == call_no)
+        if ahead_exec > env.max_ahead_exec:
+            env.max_ahead_exec = ahead_exec
         la = env.taken[call_no] - env.tasks_submitted_by_call.get(call_no, 0)
         if la > env.max_lookahead_by_call.get(call_no, 0):
             env.max_lookahead_by_call[call_no] = la
